@@ -39,9 +39,10 @@ type Answer struct {
 
 // Transport is a scripted http.RoundTripper. Handler runs on the calling goroutine.
 type Transport struct {
-	Handler func(r *Request, raw *http.Request) Answer
-	mu      sync.Mutex
-	Log     []Request
+	opened, closedN int64
+	Handler         func(r *Request, raw *http.Request) Answer
+	mu              sync.Mutex
+	Log             []Request
 }
 
 type timeoutErr struct{}
@@ -150,7 +151,29 @@ func (t *Transport) RoundTrip(raw *http.Request) (*http.Response, error) {
 	if a.Lazy != nil || a.NoLength {
 		cl = -1
 	}
-	return &http.Response{StatusCode: st, Status: http.StatusText(st), Header: h, Body: io.NopCloser(rd), Request: raw, ProtoMajor: 1, ProtoMinor: 1, ContentLength: cl}, nil
+	atomic.AddInt64(&t.opened, 1)
+	return &http.Response{StatusCode: st, Status: http.StatusText(st), Header: h, Body: &trackedBody{Reader: rd, t: t, url: r.URL, status: st}, Request: raw, ProtoMajor: 1, ProtoMinor: 1, ContentLength: cl}, nil
+}
+
+// trackedBody records that it was closed (a body left open keeps a real connection and its goroutines alive).
+type trackedBody struct {
+	io.Reader
+	t      *Transport
+	url    string
+	status int
+	closed int32
+}
+
+func (b *trackedBody) Close() error {
+	if atomic.CompareAndSwapInt32(&b.closed, 0, 1) {
+		atomic.AddInt64(&b.t.closedN, 1)
+	}
+	return nil
+}
+
+// OpenBodies is the number of response bodies handed out and not closed so far.
+func (t *Transport) OpenBodies() int64 {
+	return atomic.LoadInt64(&t.opened) - atomic.LoadInt64(&t.closedN)
 }
 
 // Requests returns a copy of the log.
